@@ -183,6 +183,17 @@ CHECKS = {
             "five cell families are known findings (Arrow timestamp unit, non-finite floats, JSON re-parsing of strings, foreign-typed cells, "
             "numeric cells of String-typed result columns)",
             "DESIGN.md §4 C20"),
+    "C13": ("exploration",
+            "runtime monitoring: reference permission model (user_management.md) against replies observed at the real TCP listener with authentication enabled; python clients sign with HMAC-SHA256 themselves",
+            "Populations of users (id shapes incl. reserved-looking ones, role sets, GRANT / REVOKE / REVOKE KEY sequences over three event types) "
+            "issue every data-reaching command kind (QUERY, aggregate, REPLAY typed / wildcard, sequence query, REMEMBER, SHOW, STORE, DEFINE, user "
+            "and permission management) under inline signature, connection AUTH + signature and session token, with valid, wrong-key, truncated, "
+            "other-user, other-command, expired-token and revoked-key credentials and payloads carrying ' TOKEN ', ':' and other users' valid "
+            "signatures. A reply with rows of an unreadable type, an accepted STORE without write permission, a successful admin command by a "
+            "non-admin, or anything but an authentication failure under invalid credentials is a violation.",
+            "safety direction only (executed => authenticated and authorised); a permission entry with both flags revoked under a role is left "
+            "unasserted because the docs describe it both ways; Compare/PLOT and BATCH are not driven; token expiry is the only wall-clock element",
+            "DESIGN.md §4 C13"),
 }
 
 PENDING_REASON = "check not built yet in this session (see DESIGN.md §10 for the order); no claim is made"
